@@ -5,7 +5,7 @@
        everything else (results, error counts) only counts towards full agreement,
        the environment (filesystem tree, registrations, pending count) is cross-checked separately;
      - evaluates the extracted specification-level predicates on the IMPLEMENTATION's observations.
-   usage: kqdriver [-cfg repo|fixed] file *)
+   usage: kqdriver [-cfg repo|before-fix] file      (repo = the tree as checked in, with the three repairs) *)
 open Kqmodel
 
 let explode s = List.init (String.length s) (String.get s)
@@ -122,7 +122,7 @@ let () =
   let cfg = ref kq_cfg_repo in
   let file = ref "" in
   let rec args = function
-    | "-cfg" :: "fixed" :: r -> cfg := kq_cfg_fixed; args r
+    | "-cfg" :: "before-fix" :: r -> cfg := kq_cfg_before_fix; args r
     | "-cfg" :: _ :: r -> args r
     | f :: r -> file := f; args r
     | [] -> () in
